@@ -22,8 +22,8 @@ for asc in (True, False):
     qs.append(query(2, 3, [1, 2], crit('one', leaf('ge', 'a', (1,))), 'time', asc, 1, 2))
     qs.append(query(1, 2, [2], crit('one', leaf()), 'time', asc, 0, 1))
 fams = [dict(name='measure-order-window', series=S, times=T, versions=[1, 2], versioned=True, maxrows=1, maxtotal=3,
-             maxops=3, graphops=0, sims=60 if c.quick else 600, simops=12, queries=qs, index='inverted', tags_by_series=True, sim=dict(maxrows=3, maxtotal=9))]
-fams.append(dict(fams[0], name='measure-order-window-2shards', shards=2, sims=30 if c.quick else 400))
+             maxops=3, graphops=0, sims=40 if c.quick else 600, simops=12, queries=qs, index='inverted', tags_by_series=True, sim=dict(maxrows=3, maxtotal=9))]
+fams.append(dict(fams[0], name='measure-order-window-2shards', shards=2, sims=15 if c.quick else 400))
 def nontrivial(st):
     ops = [x['last'].get('op') for x in st[1:]]
     return 'queryall' in ops and sum(1 for o in ops if o == 'write') >= 2
